@@ -161,7 +161,8 @@ def run(tier, replay=None):
     scen = ['estab', 'init', 'adv_init'] if tier == 'quick' else ['estab_loss', 'init3', 'init_ke', 'init_cookie', 'estab_rekey_ke', 'adv_init', 'adv']
     # the table is this property's whatever kind of datagram changed it (a forged one is C03's business too)
     # ... and so is what happens right after a kernel expiry notice: it goes to the IKE_SA that owns the SPI, whatever that IKE_SA is doing
-    ikeprop.run(v, scen, owns=lambda mm: mm['component'] in ('table', 'routing', 'kern', 'kernel_invariant') or mm['at'].startswith('CtlExpire'))   # 'kern': an IKE_SA that ends is removed TOGETHER WITH its kernel SAs
+    ikeprop.run(v, scen, owns=lambda mm: mm['component'] in ('table', 'routing', 'kern', 'kernel_invariant') or mm['at'].startswith('CtlExpire')
+                or (mm['component'] in ('escape', 'reply') and mm['at'] == 'Deliver:unknown'))       # a datagram for an SPI that is not (or no longer) in the table: dropped, nothing else   # 'kern': an IKE_SA that ends is removed TOGETHER WITH its kernel SAs
     if tier == 'thorough':
         ikeprop.run_traces(v, 400, 120)            # binding B: the IKE_SA table of recorded random schedules
     routing_probes(v)
